@@ -32,16 +32,16 @@ if os.path.exists(st):
     print()
 print('### 9.5 Independently seeded changes (fresh sub-agents given only the property text and a scratch worktree)\n')
 print('Each change was produced by a fresh sub-agent that saw only the property text and its own worktree of /repo (nothing from /verif),')
-print('in seven rounds of two changes per property (letters A/B, C/D, E/F, G/H, I/J, K/L, M/N). Later rounds were told which sites earlier rounds had used;')
+print('in eight rounds of (up to) two changes per property (letters A/B, C/D, E/F, G/H, I/J, K/L, M/N, O/P). Later rounds were told which sites earlier rounds had used;')
 print('round 4 was additionally told to assume model-based tests of the main API with boundary-biased sizes and to aim at rarely used overloads,')
 print('objects reused after close/clear/reset, aliasing between arguments, state carried between calls and helper code in other files; round 5 to')
 print('assume all of that plus fuzzing, and to aim at implementation-specific buffer sizes, numeric extremes, combinations of settings, hidden state')
-print('across three or more calls, error / partial-I/O paths, locale/time-zone/environment dependence; rounds 6 and 7 were told in addition what the')
+print('across three or more calls, error / partial-I/O paths, locale/time-zone/environment dependence; rounds 6 to 8 were told in addition what the')
 print('earlier rounds had led to (signals, symlinks, time zones, long-lived processes, giant arrays ...) and to aim at sibling-overload asymmetries,')
 print('operating-system conditions, state left by failed operations, boundaries that need two conditions at once, second invocations, sign / width')
 print('conversions on rare branches (prompts: `lib/mkseedprompt.py`).')
 import collections as _c
-_rounds = dict(A=1, B=1, C=2, D=2, E=3, F=3, G=4, H=4, I=5, J=5, K=6, L=6, M=7, N=7)
+_rounds = dict(A=1, B=1, C=2, D=2, E=3, F=3, G=4, H=4, I=5, J=5, K=6, L=6, M=7, N=7, O=8, P=8)
 _tot, _sv, _pre = _c.Counter(), _c.Counter(), _c.Counter()
 for _mp in glob.glob(R + '/seeded/*/meta.json'):
     _d = os.path.basename(os.path.dirname(_mp)); _r = _rounds.get(_d[-1], 0); _m = json.load(open(_mp)); _tot[_r] += 1
